@@ -18,6 +18,27 @@ CHECKS = {
    note="Trusts the response parser and the drainability model (a chunked body whose payload object was dropped may be drained to its end); two listed findings (requests already sent when the closing response completed are still served; close + dropped chunked body is drained and later requests served) skip exactly that sub-check for exactly that input class, counted in evidence.",
    technique="property-based testing with ground-truth request lists + invariant over the wire history (nothing written/dispatched after the closing response), proptest over scripted schedules",
    design_ref="DESIGN.md §5 C03"),
+ "C04": dict(
+   engine="simnet",
+   category="fault_enumeration",
+   text="The C02 pipelines and handler/body programs (bodies up to 200 KB, slow / partial / dropping request-body consumers, self-waking Pending patterns, echo) run against an adversarial closed-loop socket: initial write credit 0..5000, credit refilled only after a refused write (delay 0..50 ms, 1..40000 bytes), per-call write caps 1..100000 bytes, poll_flush blocked for 0..20 ms every 1-3 calls, read segmentation with Pending between segments, and a fault dimension (prefix of the stream then half-close, prefix then reset, reset after all input). The executor polls a task only when it was woken (tokio current-thread, paused clock), so a lost wake-up is a deterministic virtual-time deadline miss. Oracles: the connection future completes; the last response byte is written by (last input arrival + the case's own handler/body delays + time the socket refused writes + 150 ms), so a wake-up rescued by an unrelated later event still fails; the accepted bytes decode (independent parser) to exactly the programs' responses, once and in order (C02 oracle); nothing is written after poll_shutdown; a half-close does not drop responses to completely received requests. ~2.5*10^5 (quick) to 5*10^6 (thorough) schedules.",
+   note="Fault enumeration over generated (not exhaustive) schedules; real kernel sockets/TLS/multi-thread scheduling are not explored. Trusts the scripted socket to wake exactly the last waker it was given and never spuriously. Fault cases use a reduced oracle. Listed C01/C02 findings exclude their classes (counted).",
+   technique="property-based testing over generated socket-readiness schedules and injected faults on a wake-driven executor with virtual time; differential against the handler-program model",
+   design_ref="DESIGN.md §5 C04"),
+ "C05": dict(
+   engine="simnet",
+   category="exploration",
+   text="Streams built to grow, sent by a peer with unlimited send rate: request heads of 1 B..600 KiB (one huge header / up to 20 000 small headers / endless line / never terminated); bodies of 0.2..12 MB (Content-Length and chunked, chunk sizes 1 B..1 MB) against consumers that never read, read slowly, stop after n bytes or drop the payload; 20..60 000 pipelined minimal requests behind slow handlers and a blocked socket; streaming responses of up to 6 MB in chunks of 1 B..64 KiB with h1_write_buffer_size 1 B..1 MiB against a socket that accepts 1..20 000 bytes per refusal. Deciding oracle = byte accounting at the scripted socket and the recording handlers: bytes taken minus bytes handed to the application <= 622 592 (two read buffers at full 256 KiB capacity + 32 KiB payload mark + head-room) while the payload is alive; complete requests taken ahead of dispatch <= 16 + 2*(256 KiB/request size)+2; body bytes pulled ahead of the socket <= write buffer + one chunk + 1 KiB; an oversized head is refused with 431 after at most 256 KiB + 8 KiB were taken and nothing after it is served; everything fitting is served completely. The per-case allocator high-water mark is recorded (coarse bound in the body phase).",
+   note="Bounds are constants derived from the code (MAX_BUFFER_SIZE, BytesMut capacity doubling, payload mark, MAX_PIPELINED_MESSAGES) with head-room: a regression that loosens a bound by less than the head-room is not detected. The queue bound is what the code implements (one decode pass queues a whole read buffer), i.e. thousands of tiny requests, not 16. Per-object overhead and allocator fragmentation are not bounded.",
+   technique="property-based testing with generated volume/slow-consumer scenarios and black-box byte-accounting invariants (maxima over the execution) under virtual time",
+   design_ref="DESIGN.md §5 C05"),
+ "C06": dict(
+   engine="simnet",
+   category="exploration",
+   text="Virtual-time exploration of timer orderings at 1 ms resolution. Because the harness controls when the service is created relative to the accept, the staleness of actix's 500 ms cached clock and hence the exact deadline of every timer is known (deadline = t - ((accept_delay + t) mod 500) + timeout); events are generated at the exact deadline -3000..+1500 ms, densely at +-3 ms, and never. (head) first head in 1-4 pieces vs client_request_timeout 0/300/3000/1..2000: 408 exactly at the deadline (and inside [timeout-500, timeout]) iff the head is incomplete then, never otherwise, nothing else written, request not dispatched, connection gone. (keep-alive) Disabled/Os/Timeout x second and third request racing the idle deadline: a request before the deadline is served, the idle connection is closed at the deadline, not before. (shutdown) decision by keep-alive expiry / 408 / closing response / unread-body linger x client_disconnect_timeout x silent or late-closing peer x peer that never reads x transport whose shutdown never completes: the task completes by decision + timeout (+ timeout for the linger phase). (drain) graceful-shutdown signal vs 1-4 requests with handler delays, streaming bodies, arrival gaps: nothing dispatched after the signal, every dispatched request answered completely, a response written after the signal says close and is the last, the connection completes when the in-flight work is done. 10^6 (quick) to 2*10^7 (thorough) cases.",
+   note="Timers armed in the very millisecond of a clock refresh are not judged (either value is legitimate). Only the first request head is governed by the request timeout. No write timeout is claimed: a peer that stops reading before a response is flushed keeps the server writing.",
+   technique="property-based testing over generated event times around exact timer deadlines under a paused (virtual) clock; invariants over time-stamped wire history",
+   design_ref="DESIGN.md §5 C06"),
  "C01": dict(
    engine="simnet",
    category="exploration",
